@@ -11,8 +11,6 @@ import (
 	"testing"
 
 	"github.com/ory/keto/internal/check"
-	"github.com/ory/keto/internal/expand"
-	"github.com/ory/keto/internal/namespace/namespacehandler"
 	"github.com/ory/keto/internal/schema"
 	opl "github.com/ory/keto/proto/ory/keto/opl/v1alpha1"
 	rts "github.com/ory/keto/proto/ory/keto/relation_tuples/v1alpha2"
@@ -25,18 +23,14 @@ func init() {
 	streams["store-readonly"] = streamStoreReadonly
 }
 
-func stSkipCorpus(o *Out) {
-	// shard ids are run-specific: a recorded line cannot be re-executed
-	for range corpusLines("store") {
-		o.Count("corpus-skipped")
-	}
-}
-
 func streamStore(t *testing.T, o *Out) {
-	stSkipCorpus(o)
+	lines, _ := stCorpus(t, "store")
 	r := newRand()
 	n := envInt("VERIF_N", 300)
 	e := newStEnv(t, o, 0)
+	for _, l := range lines {
+		e.replay(l)
+	}
 	for i := 0; i < n; i++ {
 		c := newStCase(e, r)
 		g := newStGen(c, []int{0})
@@ -46,10 +40,13 @@ func streamStore(t *testing.T, o *Out) {
 }
 
 func streamStoreNets(t *testing.T, o *Out) {
-	stSkipCorpus(o)
+	lines, maxNet := stCorpus(t, "store-nets")
 	r := newRand()
 	n := envInt("VERIF_N", 300)
-	e := newStEnv(t, o, 2)
+	e := newStEnv(t, o, max(2, maxNet))
+	for _, l := range lines {
+		e.replay(l)
+	}
 	w := stWeights{}
 	for k, v := range stDefaultWeights {
 		w[k] = v
@@ -94,9 +91,10 @@ func stRealErr(err error) string {
 }
 
 // itemRM is a read request that is not a list: its names go through the read-only mapper.
-func (g *stGen) itemRM(net int, h *stReadHandlers) *stItem {
+func (g *stGen) itemRM(net int) *stItem {
 	r := g.r
 	c := g.c
+	h := c.env.nets[net].rh
 	t := g.tuple(r.Intn(5) != 0)
 	if r.Intn(8) == 0 {
 		t.rel = stRandWord(r)
@@ -219,12 +217,13 @@ func (g *stGen) itemRM(net int, h *stReadHandlers) *stItem {
 }
 
 func streamStoreReadonly(t *testing.T, o *Out) {
-	stSkipCorpus(o)
+	lines, _ := stCorpus(t, "store-readonly")
 	r := newRand()
 	n := envInt("VERIF_N", 300)
 	e := newStEnv(t, o, 0)
-	h := &stReadHandlers{check: check.NewHandler(e.reg), expand: expand.NewHandler(e.reg),
-		ns: namespacehandler.New(e.reg), schema: schema.NewHandler(e.reg)}
+	for _, l := range lines {
+		e.replay(l)
+	}
 	wW := stWeights{"C": 8, "P": 14, "T": 10, "W": 8, "Y": 5, "D": 1, "X": 1}
 	wR := stWeights{"L": 10, "LA": 8, "PL": 8, "E": 8, "iter": 3}
 	for i := 0; i < n; i++ {
@@ -242,7 +241,7 @@ func streamStoreReadonly(t *testing.T, o *Out) {
 		rms := 0
 		for c.n < target {
 			if r.Intn(100) < 45 {
-				c.run(g.itemRM(0, h))
+				c.run(g.itemRM(0))
 				rms++
 				continue
 			}
@@ -463,11 +462,14 @@ func (g *stGen) faultMapping() {
 }
 
 func streamStoreFaults(t *testing.T, o *Out) {
-	stSkipCorpus(o)
+	lines, maxNet := stCorpus(t, "store-faults")
 	r := newRand()
 	n := envInt("VERIF_N", 300)
-	e := newStEnv(t, o, 0)
+	e := newStEnv(t, o, maxNet)
 	e.installFaults()
+	for _, l := range lines {
+		e.replay(l)
+	}
 	bigLeft := 3
 	if n < 30 {
 		bigLeft = 1
